@@ -28,6 +28,12 @@ def step (st : St) (ws : List String) : St × String :=
     match cap.toNat?, o.toNat? with
     | some c, some o => (.buf (Buf.new c (o != 0)), "ok")
     | _, _ => (st, "bad-op")
+  | ["stress", cap, writers, n] =>
+    -- every write is one step of M-SINK whatever the interleaving of the writers: after `writers * n` writes the buffer
+    -- holds min(cap, writers * n) events (`buf_len_le_cap`, `overflow_keeps_last_cap`)
+    match cap.toNat?, writers.toNat?, n.toNat? with
+    | some c, some w, some n => (st, s!"stress len={min c (w * n)}")
+    | _, _, _ => (st, "bad-op")
   | ["case", "slot", o] =>
     match o.toNat? with
     | some o => (.slot (Slot.new (o != 0)), "ok")
